@@ -437,11 +437,39 @@ def compute_max_agg_jac(
     if indices is not None:
         orig_jac = orig_jac[indices, :]
         orig_val = orig_val[indices]
-    orig_jac *= scale
-    orig_val *= scale
+    orig_jac = orig_jac * atleast_2d(scale).T
+    orig_val = orig_val * scale
     i_max = np_argmax(orig_val)
 
     return atleast_2d(orig_jac)[i_max, :]
+
+
+def compute_partial_max_agg_jac(
+    orig_val: ndarray,
+    indices: Sequence[int] | None = None,
+    scale: float | ndarray = 1.0,
+) -> ndarray:
+    """Compute the Jacobian of max function with respect to constraints.
+
+    The maximum function is not differentiable for all input values.
+
+    Args:
+        orig_val: The original constraint values.
+        indices: The indices to generate a subset of the outputs to aggregate.
+            If ``None``, aggregate all the outputs.
+        scale: The scaling factor for multiplying the constraints.
+
+    Returns:
+        The Jacobian of max function with respect to constraints.
+    """
+    full_size = orig_val.size
+    if indices is not None:
+        orig_val = orig_val[indices]
+
+    i_max = np_argmax(orig_val * scale)
+    jac = zeros((1, orig_val.size))
+    jac[0, i_max] = scale[i_max] if isinstance(scale, ndarray) else scale
+    return __filter_jac(jac, full_size, indices)
 
 
 def compute_sum_positive_square_agg(
